@@ -825,6 +825,24 @@ func (c *SpecCtx) evalCall(x *ast.CallExpr) *SV {
 			return c.eval(x.Args[0])
 		}
 		return c.inState(c.old).eval(x.Args[0])
+	case "sinceLock":
+		// sinceLock(e[, k]): e in the current state with old(..) bound to the state right after
+		// the k-th last monitor Lock (two-state predicates written with old() are reused per critical section)
+		k := 0
+		if len(x.Args) > 1 {
+			kv := c.eval(x.Args[1])
+			if kv.Const == nil {
+				c.fail("sinceLock: index must be a constant")
+			}
+			k = int(kv.Const.Int64())
+		}
+		snaps := c.st.lockSnaps
+		if len(snaps)-1-k < 0 {
+			return c.eval(x.Args[0])
+		}
+		n := *c
+		n.old = snaps[len(snaps)-1-k]
+		return n.eval(x.Args[0])
 	case "atLock", "atUnlock":
 		// atLock(e[, k]) / atUnlock(e[, k]): e in the state right after the k-th
 		// last monitor Lock / right before the k-th last monitor Unlock on this
@@ -932,6 +950,24 @@ func (c *SpecCtx) evalCall(x *ast.CallExpr) *SV {
 			oldSt = c.st
 		}
 		return boolSV(And(Gt(ref, IntLit(0)), Not(Select(ex.allocArr(oldSt), ref)), Select(ex.allocArr(c.st), ref)))
+	case "mine":
+		// mine(x): x is an object this invocation allocated itself (on this path).  Unlike fresh(x) this
+		// excludes objects other threads allocated while this one was outside its critical sections.
+		a := c.eval(x.Args[0])
+		var ref *Term
+		if a.V.Sl != nil {
+			ref = a.V.Sl.Arr
+		} else {
+			ref = ex.valTerm(a.V)
+		}
+		var alts []*Term
+		for _, f := range c.st.fresh {
+			alts = append(alts, Eq(ref, f.ref))
+		}
+		if len(alts) == 0 {
+			return boolSV(TFalse)
+		}
+		return boolSV(Or(alts...))
 	case "onlyNew":
 		// onlyNew(x1, ..): every object allocated now was allocated in the pre-state or is one of the x_i
 		oldSt := c.old
